@@ -122,6 +122,82 @@ pub fn clicases(kind: &str, seed: u64, n: usize) -> Value {
                     "lines": line_reference(&orc, &case.input, case.flags.term),
                 }));
             }
+            "c03" => {
+                // context cases for the C03 / C16 CLI legs: the grep model's
+                // expected stream for `rg -a -n -b --no-heading`.
+                let mut case = crate::ctxgen::gen_case(&mut rng);
+                if case.cfg.term == Term::Nul {
+                    continue;
+                }
+                if case.input.len() > 20_000 {
+                    case.input.truncate(20_000);
+                }
+                if has_bom(&case.input) {
+                    continue;
+                }
+                let flags = case.flags(false);
+                let orc = match Oracle::build(&[case.pattern.clone()], &flags) {
+                    Ok(o) => o,
+                    Err(_) => continue,
+                };
+                let lines = split_lines(&case.input, case.cfg.term);
+                let mask: Vec<bool> = lines
+                    .iter()
+                    .map(|l| orc.line_matches(&case.input[l.start..l.content_end]))
+                    .collect();
+                let model = crate::model::grep_model(
+                    &case.input,
+                    &lines,
+                    &mask,
+                    &case.cfg.grep_cfg(),
+                );
+                let mut args: Vec<String> = vec![];
+                let c = &case.cfg;
+                if c.passthru {
+                    args.push("--passthru".into());
+                } else {
+                    if c.after > 0 {
+                        args.push(format!("-A{}", c.after));
+                    }
+                    if c.before > 0 {
+                        args.push(format!("-B{}", c.before));
+                    }
+                }
+                if c.invert {
+                    args.push("-v".into());
+                }
+                if c.term == Term::Crlf {
+                    args.push("--crlf".into());
+                }
+                if c.stop_on_nonmatch {
+                    args.push("--stop-on-nonmatch".into());
+                }
+                args.push(if c.line_number { "-n".into() } else { "-N".into() });
+                let evs: Vec<Value> = model
+                    .iter()
+                    .filter_map(|e| match e {
+                        crate::model::Expect::Exact(crate::sinklog::Event::Matched { bytes, off, line }) => Some(json!({"k": "M", "line": line, "off": off, "bytes": esc(bytes)})),
+                        crate::model::Expect::Exact(crate::sinklog::Event::Context { bytes, off, line, .. }) => Some(json!({"k": "C", "line": line, "off": off, "bytes": esc(bytes)})),
+                        crate::model::Expect::ContextEither { bytes, off, line } => Some(json!({"k": "C", "line": line, "off": off, "bytes": esc(bytes)})),
+                        crate::model::Expect::Exact(crate::sinklog::Event::Break) => Some(json!({"k": "break"})),
+                        _ => None,
+                    })
+                    .collect();
+                out.push(json!({
+                    "pattern": case.pattern,
+                    "args": args,
+                    "after": if c.passthru { 0 } else { c.after },
+                    "before": if c.passthru { 0 } else { c.before },
+                    "passthru": c.passthru,
+                    "invert": c.invert,
+                    "line_number": c.line_number,
+                    "stop_on_nonmatch": c.stop_on_nonmatch,
+                    "term": c.term.name(),
+                    "input": esc(&case.input),
+                    "nlines": lines.len(),
+                    "model": evs,
+                }));
+            }
             _ => break,
         }
     }
